@@ -77,6 +77,9 @@ def coincidences(lines):
     return sum(1 for v in cnt.values() if v >= 2)
 
 
+MAX_OBS_LINE = 6000
+
+
 def _run_cases(cases, oracles, nontrivial, attribute=None):
     """implementation, model and oracles on a list of cases; returns the partial results of this batch.  `attribute(list of (case, impl
     lines, model lines))` -> list of bool says, for the cases on which implementation and model disagree, whether the disagreement is
@@ -89,8 +92,13 @@ def _run_cases(cases, oracles, nontrivial, attribute=None):
         impl[c.cid] = runners[c.cid].run()
     model = {}
     CH = 2000
-    for i in range(0, len(cases), CH):
-        chunk = cases[i:i + CH]
+    # A condition over conditions with repeated operands has a value whose flattened form doubles with every level; a handful of random
+    # scripts per million would reach 10^8 entries (minutes and gigabytes in the library itself).  The runner cuts such a script short
+    # (kscript.MAX_COND_LEAVES); it is neither replayed nor judged (counted in the histogram).
+    oversized = {c.cid for c in cases if runners[c.cid].oversized or any(len(l) > MAX_OBS_LINE for l in impl[c.cid])}
+    replayed = [c for c in cases if c.cid not in oversized]
+    for i in range(0, len(replayed), CH):
+        chunk = replayed[i:i + CH]
         model.update(split_cases(run_driver('kernel', '\n'.join(c.text() for c in chunk) + '\n')))
     disagreements, oracle_failures = [], []
     dis_all = []
@@ -119,9 +127,11 @@ def _run_cases(cases, oracles, nontrivial, attribute=None):
         txt = c.text().split('\n', 1)[1]
         nt = bool((nontrivial or default_nontrivial)(c, a))
         distinct[txt] = distinct.get(txt, False) or nt
-        if a != b:
+        if c.cid in oversized:
+            hist['left out: a condition value of more than %d leaf occurrences (doubling with the nesting depth)' % kscript.MAX_COND_LEAVES] += 1
+        elif a != b:
             dis_all.append((c, a, b))
-        for orc in oracles:
+        for orc in (oracles if c.cid not in oversized else ()):
             for f in orc(c, a, runners[c.cid]) or []:
                 f.setdefault('case', c.to_json())
                 f.setdefault('trace', a[:400])
